@@ -1,21 +1,24 @@
 /-
   Driver.lean — core-only executable: reads cases on stdin, prints for every input line exactly one output line.
     case <suite> k=v ...      -> "#case"
-    <op line>                 -> "<model output>\t<spec output>"
+    <op line>                 -> "<model output>\t<spec output>"     spec: expected value | "-" no opinion | "!msg" violated
+    > <real output>           -> (no output) the implementation's answer to the previous op, for trace monitors
     end                       -> "#end"
 -/
 import CircuitModel.DriverRC
+import CircuitModel.DriverTC
+import CircuitModel.DriverRP
 open CM
 
-def suites : List (String × (List (String × String) → List String → List String)) :=
-  [("rc", suiteRC)]
+def suites : List (String × (List (String × String) → List (String × String) → List String)) :=
+  [("rc", suiteRC), ("tc", suiteTC), ("rp", suiteRP), ("sd", suiteSD)]
 
 partial def readAll (h : IO.FS.Stream) (acc : Array String) : IO (Array String) := do
   let line ← h.getLine
   if line.isEmpty then return acc
   readAll h (acc.push line.trimAsciiEnd.toString)
 
-def flushCase (out : IO.FS.Stream) (hdr : Option (List String)) (ops : Array String) : IO Unit := do
+def flushCase (out : IO.FS.Stream) (hdr : Option (List String)) (ops : Array (String × String)) : IO Unit := do
   match hdr with
   | none => for _ in ops do out.putStrLn "bad-op\tbad-op"
   | some toks =>
@@ -34,7 +37,7 @@ def main : IO Unit := do
   let out ← IO.getStdout
   let lines ← readAll stdin #[]
   let mut hdr : Option (List String) := none
-  let mut ops : Array String := #[]
+  let mut ops : Array (String × String) := #[]
   for l in lines do
     if l.startsWith "case " then
       hdr := some ((l.drop 5).toString.splitOn " ")
@@ -45,6 +48,11 @@ def main : IO Unit := do
       out.putStrLn "#end"
       hdr := none
       ops := #[]
+    else if l.startsWith "> " then
+      -- the real implementation's answer to the previous op (consumed by trace monitors)
+      if ops.size > 0 then
+        let last := ops.back!
+        ops := ops.pop.push (last.1, (l.drop 2).toString)
     else
-      ops := ops.push l
+      ops := ops.push (l, "")
   out.flush
